@@ -77,7 +77,9 @@ POOL = {
            + [le(0x7ff8000000000000, 8), le(0xfff8000000000001, 8), le(0x7ff0000000000001, 8), le(0x7fffffffffffffff, 8), le(0x0010000000000000, 8)],
     "bool": [b"\x00", b"\x01"],
     "str": [b"", b"a", b"b", b"ab", b"abc", b"zzz", b"__#NIL#__", b"__#NIL#_", b"__#NIL#__x", b"\x00", b"\xff", b"\xff\xfe\x00", b"\x80abc",
-            b"PAR1", b"hello world", b"A" * 40, bytes(range(256))],
+            b"PAR1", b"hello world", b"A" * 40, bytes(range(256)),
+            b"\xff" * 63, b"\xff" * 64, b"\xff" * 65, b"\xff" * 130, b"\x00" * 70, b"k" * 63 + b"\xff" + b"tail", b"k" * 64 + b"\xff" * 3,
+            b"\xfe" * 64 + b"\x01", b"z" * 127 + b"\xff", b"z" * 255 + b"\xff\xff"],
 }
 
 
